@@ -1049,8 +1049,102 @@ func (e *Engine) invoke(fr *Frame, st *State, c *ssa.CallCommon, recv Value, arg
 	if r := e.externInvoke(fr, st, key, c, recv, args, site); r != nil {
 		return r
 	}
+	if r, ok := e.invokeByTag(fr, st, c, recv, args, site); ok {
+		return r
+	}
 	e.assumedExterns["interface call "+key+" (assumed total, no effect on modelled state, arbitrary result)"] = true
 	return e.havocResults(st, c.Signature(), "inv."+c.Method.Name())
+}
+
+// invokeByTag: a method call on an interface value read from memory, for interfaces declared in
+// the repository whose implementations are pointer types of the repository: one case per
+// implementation, selected by the dynamic type tag (the receiver is the pointer carried by the
+// interface value); a value of any other dynamic type makes the result arbitrary.
+func (e *Engine) invokeByTag(fr *Frame, st *State, c *ssa.CallCommon, recv Value, args []Value, site ssa.Instruction) ([]Value, bool) {
+	nt, ok := c.Value.Type().(*types.Named)
+	if !ok || nt.Obj().Pkg() == nil || !strings.HasPrefix(nt.Obj().Pkg().Path(), "github.com/irai/packet") {
+		return nil, false
+	}
+	iface, ok := nt.Underlying().(*types.Interface)
+	if !ok {
+		return nil, false
+	}
+	type cand struct {
+		t  types.Type
+		fn *ssa.Function
+	}
+	var cands []cand
+	for _, pkg := range e.prog.AllPackages() {
+		if pkg.Pkg == nil || !strings.HasPrefix(pkg.Pkg.Path(), "github.com/irai/packet") {
+			continue
+		}
+		for _, m := range pkg.Members {
+			tn, ok := m.(*ssa.Type)
+			if !ok {
+				continue
+			}
+			pt := types.NewPointer(tn.Type())
+			if !types.Implements(pt, iface) || types.Implements(tn.Type(), iface) {
+				continue // only implementations by pointer receiver (the handle is the pointer)
+			}
+			sel := e.prog.MethodSets.MethodSet(pt).Lookup(c.Method.Pkg(), c.Method.Name())
+			if sel == nil {
+				continue
+			}
+			if fn := e.prog.MethodValue(sel); fn != nil && fn.Blocks != nil {
+				cands = append(cands, cand{pt, fn})
+			}
+		}
+	}
+	if len(cands) == 0 || len(cands) > 12 {
+		return nil, false
+	}
+	sort.Slice(cands, func(i, j int) bool { return typeKey(cands[i].t) < typeKey(cands[j].t) })
+	var sts []*State
+	var vals [][]Value
+	var none []*Term
+	for _, cd := range cands {
+		cond := Eq(recv.T[0], e.typeTag(cd.t))
+		none = append(none, Not(cond))
+		if cond == False {
+			continue
+		}
+		s2 := st.clone()
+		s2.assumeBranch(cond)
+		rv := e.ptrFromTerms([]*Term{Extract(recv.T[1], 31, 0)}, cd.t)
+		v := e.callStatic(fr, s2, cd.fn, append([]Value{rv}, args...), site)
+		if s2.dead {
+			continue
+		}
+		sts = append(sts, s2)
+		vals = append(vals, v)
+	}
+	other := And(none...)
+	if other != False {
+		s2 := st.clone()
+		s2.assumeBranch(other)
+		e.assumedExterns["interface call "+types.TypeString(c.Value.Type(), nil)+"."+c.Method.Name()+" on a dynamic type outside the repository's pointer implementations: arbitrary result"] = true
+		v := e.havocResults(s2, c.Signature(), "inv."+c.Method.Name())
+		sts = append(sts, s2)
+		vals = append(vals, v)
+	}
+	if len(sts) == 0 {
+		st.kill()
+		return e.zeroResults(c.Signature()), true
+	}
+	m, conds := mergeStates(sts)
+	res := c.Signature().Results()
+	out := make([]Value, res.Len())
+	for k := 0; k < res.Len(); k++ {
+		t := res.At(k).Type()
+		acc := vals[len(vals)-1][k]
+		for i := len(vals) - 2; i >= 0; i-- {
+			acc = e.iteValue(conds[i], vals[i][k], acc, t)
+		}
+		out[k] = acc
+	}
+	*st = *m
+	return out, true
 }
 
 // ---------- defers, go, channels ----------
